@@ -1,6 +1,7 @@
 package main
 
 import (
+	"verif/shim/vsched"
 	"bytes"
 	"context"
 	"crypto/rand"
@@ -26,6 +27,7 @@ import (
 const idpIssuer = "https://idp.example"
 
 type IdP struct {
+	SchedPoint bool // requests are scheduling points of the running exploration
 	mu sync.Mutex
 	// Issuer is the provider URL (scripted transport: https://idp.example; loopback server: http://127.0.0.1:port)
 	Issuer string
@@ -55,6 +57,10 @@ var theIdP *IdP
 func (p *IdP) RoundTrip(r *http.Request) (*http.Response, error) {
 	if r.URL.Host != "idp.example" {
 		return nil, errors.New("scripted transport: unknown host " + r.URL.Host)
+	}
+	if p.SchedPoint && vsched.Active() {
+		// the round trip to the identity provider takes time: other goroutines run meanwhile
+		vsched.Point("idp "+r.URL.Path, func() bool { return true })
 	}
 	code, v, err := p.respond(r)
 	if err != nil {
@@ -141,6 +147,7 @@ func (p *IdP) respond(r *http.Request) (int, any, error) {
 func InstallIdP() *IdP {
 	if theIdP != nil {
 		theIdP.Mode = "honour"
+		theIdP.SchedPoint = false
 		theIdP.Revoked = map[string]bool{}
 		theIdP.UserinfoCalls = map[string]int{}
 		theIdP.Codes = map[string]CodeBehaviour{}
